@@ -6,6 +6,7 @@ CONSTANTS
   BinOps <- MC_OpsMid
   Maps <- MC_MapsQuick
   OnePairs <- MC_PairsFew
+  Routes = {}
   MaxUnits = 3
   MinUnits = 0
   MaxDepth = 1
